@@ -186,6 +186,9 @@ def specs(r):
         res = rec["result"]
         if res[0] == "e" and not (rec["op"] == "del" and res[1] == "SchedulerError"):
             qs.append(("spec eq 0 1", {"what": "no_internal_error", "op": rec["op"], "error": list(res)}))
+        if rec["op"] == "str" and res[0] == "n" and len(res) > 2:
+            # one print call reads ONE registry: the heading's count is the number of rows of the same result
+            qs.append((f"spec eq {res[2]} {res[1]}", {"what": "printed table is one snapshot (heading count = rows)", "heading": res[1], "rows": res[2]}))
     # at most once per exec_jobs call
     seen = {}
     for (k, e, _t) in out["invocations"]:
